@@ -130,6 +130,21 @@ register("C14", "proof",
          TRUST + " Circuit format rests on assumed Q1; cross-format and long circuits seeded (bounded).",
          "exhaustive enumeration under contracts (GROUND) + AST frame", "DESIGN.md 5 (C14)")
 
+register("C15", "proof",
+         "Verification conditions generated from the real Stabilizer.expand / is_qubit_entangled / is_equivalent_mod_phase / __eq__ (pyvc) over ALL R/S bit "
+         "matrices for n=1..6, discharged by folding/ANF/z3, plus a spec-level recombination lemma (z3). Background lemma M1 lifts the definitional "
+         "postconditions to the property sentence; because M1 is trusted, the sentence itself is cross-checked on ALL stabilizer groups n<=4 (5 thorough) x all "
+         "qubits and ALL pairs of groups n<=3 against canonical forms / weight-one elements from the oracle.",
+         TRUST + " M1 trusted; pairs for n>=4 stratified (bounded).", "pyvc VCs from the real methods + z3; exhaustive group-level cross-check (GROUND)", "DESIGN.md 5 (C15)")
+
+register("C08", "proof",
+         "Stabilizer.validate proved (pyvc, modular over f2.rank's contract) to accept exactly the independent commuting sets for all R/S, n=1..6; the configuration "
+         "gate proved for ALL integers and ALL strings by running the real function on representation-hiding proxies (integer regions between its own literals, an "
+         "opaque string); every public entry point x n in 1..8 x 13 names rejects exactly the unadvertised pairs; ALL 2^8 two-qubit X/Z matrix pairs (thorough: all "
+         "2^18 three-qubit pairs) give raise-or-correct for preparation and readout.",
+         TRUST + " Invalid inputs for larger n are structured+seeded (bounded); the general claim is the lemma over C16 soundness and validate.",
+         "pyvc VC (modular callee contract) + representation-hiding proxies + exhaustive enumeration", "DESIGN.md 5 (C08)")
+
 NOT_APPLICABLE = []   # every property is claimed; sub-claims outside the family's reach are labelled in the evidence
 
 
